@@ -22,6 +22,9 @@ PATTERNS = {
     "^$": ([""], ["a", " ", "ab"]),
     "o": (["o", "foo", "oo", "xo"], ["", "a", "bar", "0"]),
     "^[A-Z]": (["A", "Zb", "AZ"], ["", "a", "1A", "éA"]),
+    # back-references (same meaning in Python re and ECMA 262)
+    "^(a|b)\\1$": (["aa", "bb"], ["", "ab", "a", "aab", "ba"]),
+    "(.)\\1": (["aa", "xooy", "11", "abb"], ["", "a", "ab", "aba", "abc"]),
 }
 
 GOOD_UUID = [
@@ -560,7 +563,7 @@ def hostile_value(rng, depth=2):
         return [hostile_value(rng, depth - 1) for _ in range(rng.randint(0, 4))]
     if roll < 0.85:
         keys = ["a", "b", "", "\x00", "\ud800", "__class__", "__dict__", "_dict", "class", "é",
-                "a" * 1000, "1", "default", "properties"]
+                "a" * 1000, "1", "default", "properties", "{}", "{a}", "{", "%s", "{0}"]
         return {rng.choice(keys): hostile_value(rng, depth - 1) for _ in range(rng.randint(0, 4))}
     if roll < 0.93:
         base = hostile_scalar(rng)
